@@ -10,3 +10,6 @@ pub fn eval(_op: &str, _args: &[V]) -> Option<Vec<V>> {
 }
 
 pub fn gen(_rng: &mut Rng, _thorough: bool, _emit: &mut dyn FnMut(String)) {}
+
+/// `DijkstraPred` cases (predecessors / shortest_path); also part of C05's run.
+pub fn gen_pred(_rng: &mut Rng, _thorough: bool, _emit: &mut dyn FnMut(String)) {}
